@@ -1,8 +1,9 @@
 //! C18 correspondence: histories of PeerRegistry operations.
 use repe::{BodyFormat, NotifyBody, PeerHandle, PeerId, PeerRegistry, PeerSendError, PeerSink};
 use repe_verif_harness::*;
-use std::sync::{Arc, Mutex};
-use std::time::Duration;
+use std::sync::atomic::{AtomicU64, AtomicUsize, Ordering};
+use std::sync::{Arc, Barrier, Mutex};
+use std::time::{Duration, Instant};
 
 #[derive(Default)]
 struct Capture { got: Mutex<Vec<(String, Vec<u8>, u16)>> }
@@ -21,14 +22,130 @@ impl PeerSink for Capture {
 struct ReKey { key: String, during: Box<dyn FnOnce()> }
 impl From<ReKey> for String { fn from(k: ReKey) -> String { (k.during)(); k.key } }
 
+/// A key whose conversion to `String` takes a few microseconds: `alias` converts the key on the
+/// caller's side of the registry lock, so this stretches whatever lies around the conversion.
+struct SlowKey(String);
+impl From<SlowKey> for String { fn from(k: SlowKey) -> String { for _ in 0..3000 { std::hint::spin_loop(); } k.0 } }
+
 fn h(v: u64) -> String { format!("{v:x}") }
 fn p(s: &str) -> u64 { u64::from_str_radix(s, 16).unwrap() }
 fn list(v: &[u64]) -> String { if v.is_empty() { "-".into() } else { v.iter().map(|x| h(*x)).collect::<Vec<_>>().join(".") } }
 fn key(k: u64) -> String { format!("key-{k}") }
 fn unkey(s: &str) -> u64 { s.strip_prefix("key-").unwrap().parse().unwrap() }
 
+/// the full observable state, in the format of the sequential cases' steps
+fn observe_state(reg: &PeerRegistry, ids: &[u64], keys: &[u64], out: &str) -> String {
+    let present: String = ids.iter().map(|id| if reg.get(PeerId(*id)).map(|h| h.peer_id().0 == *id).unwrap_or(false) { '1' } else { '0' }).collect();
+    let by: Vec<String> = keys.iter().map(|k| reg.get_by(key(*k).as_str()).map(|ph| h(ph.peer_id().0)).unwrap_or_else(|| "-".into())).collect();
+    let al: Vec<String> = ids.iter().map(|id| list(&reg.aliases_for(PeerId(*id)).iter().map(|s| unkey(s)).collect::<Vec<_>>())).collect();
+    let kf: Vec<String> = ids.iter().map(|id| reg.key_for(PeerId(*id)).map(|s| h(unkey(&s))).unwrap_or_else(|| "-".into())).collect();
+    format!("{}/{}/{}/{}/{}/{}", out, h(reg.len() as u64), present, by.join(","), al.join(","), kf.join(","))
+}
+
+/// one operation of a concurrent history (mutators and queries); `tag` makes a broadcast's
+/// path unique so that its deliveries can be told apart from other threads' broadcasts.
+/// Returns (result text, work to do after the response timestamp that completes the result).
+fn conc_op(reg: &PeerRegistry, sinks: &[Arc<Capture>], ids: &[u64], op: &str, tag: &str) -> (String, Option<(String, Vec<u8>, u16, Vec<u64>, usize)>) {
+    let t: Vec<&str> = op.split(':').collect();
+    let opt = |o: Option<u64>| o.map(h).unwrap_or_else(|| "-".into());
+    match t[0] {
+        "I" => { let id = p(t[1]); let s = sinks[ids.iter().position(|x| *x == id).unwrap()].clone(); reg.insert(PeerHandle::new(PeerId(id), s)); ("u".into(), None) }
+        "X" => (format!("b{}", reg.remove(PeerId(p(t[1]))).is_some() as u8), None),
+        "L" => (format!("b{}", reg.alias(PeerId(p(t[1])), key(p(t[2]))) as u8), None),
+        "S" => (format!("b{}", reg.alias(PeerId(p(t[1])), SlowKey(key(p(t[2])))) as u8), None),
+        "G" => (format!("g{}", reg.get(PeerId(p(t[1]))).is_some() as u8), None),
+        "Y" => (format!("y{}", opt(reg.get_by(key(p(t[1])).as_str()).map(|ph| ph.peer_id().0))), None),
+        "A" => (format!("a{}", list(&reg.aliases_for(PeerId(p(t[1]))).iter().map(|s| unkey(s)).collect::<Vec<_>>())), None),
+        "F" => (format!("f{}", opt(reg.key_for(PeerId(p(t[1]))).map(|s| unkey(&s)))), None),
+        "N" => (format!("n{}", h(reg.len() as u64)), None),
+        "B" => {
+            let path = format!("/bc/{tag}"); let body = format!("payload-{tag}").into_bytes();
+            let sel = tag.bytes().map(|b| b as usize).sum::<usize>() % 3;
+            let (fmt, res) = match sel {
+                0 => (BodyFormat::Utf8 as u16, reg.broadcast_notify_utf8(&path, std::str::from_utf8(&body).unwrap())),
+                1 => (BodyFormat::RawBinary as u16, reg.broadcast_notify_raw(&path, BodyFormat::RawBinary, &body)),
+                _ => (BodyFormat::Json as u16, reg.broadcast_notify_raw(&path, BodyFormat::Json, &body)),
+            };
+            let mut results: Vec<u64> = res.iter().filter(|(_, r)| r.is_ok()).map(|(k, _)| k.0).collect(); results.sort();
+            (String::new(), Some((path, body, fmt, results, res.len())))
+        }
+        _ => panic!("bad op"),
+    }
+}
+
+fn finish_broadcast(sinks: &[Arc<Capture>], ids: &[u64], b: (String, Vec<u8>, u16, Vec<u64>, usize)) -> String {
+    let (path, body, fmt, results, nres) = b;
+    let mut delivered = Vec::new(); let mut bad = Vec::new();
+    for (i, s) in sinks.iter().enumerate() {
+        let g = s.got.lock().unwrap();
+        let mine: Vec<&(String, Vec<u8>, u16)> = g.iter().filter(|e| e.0 == path).collect();
+        if mine.len() == 1 && mine[0].1 == body && mine[0].2 == fmt { delivered.push(ids[i]); }
+        else if !mine.is_empty() { bad.push(ids[i]); }
+    }
+    delivered.sort();
+    if bad.is_empty() && delivered == results && nres == results.len() { format!("ids{}", list(&delivered)) }
+    else { format!("idsBAD[delivered={};results={};bad={}]", list(&delivered), list(&results), list(&bad)) }
+}
+
+/// `k=conc ids= keys= pre=<ops> sync=<0|1> th=<ops>!<ops>...`: apply `pre`, then run the
+/// threads on clones of one registry; every operation is stamped with a global logical clock
+/// at invocation and at response. With sync=1 the j-th operations of all threads are released
+/// together (spin barrier), otherwise only the first ones are.
+fn run_conc(f: &std::collections::HashMap<String, String>) -> String {
+    let ids: Vec<u64> = f["ids"].split('.').map(p).collect();
+    let keys: Vec<u64> = f["keys"].split('.').map(p).collect();
+    let reg = PeerRegistry::new();
+    let sinks: Vec<Arc<Capture>> = ids.iter().map(|_| Arc::new(Capture::default())).collect();
+    if f["pre"] != "-" { for (j, op) in f["pre"].split(';').enumerate() { let (_, b) = conc_op(&reg, &sinks, &ids, op, &format!("pre/{j}")); drop(b); } }
+    let init = observe_state(&reg, &ids, &keys, "u");
+    let threads: Vec<Vec<String>> = f["th"].split('!').map(|t| if t == "-" { vec![] } else { t.split(';').map(|s| s.to_string()).collect() }).collect();
+    let n = threads.len();
+    let rounds = threads.iter().map(|t| t.len()).max().unwrap_or(0);
+    let sync = f.get("sync").map(|s| s == "1").unwrap_or(false);
+    let clock = Arc::new(AtomicU64::new(1));
+    let start = Arc::new(Barrier::new(n));
+    let arrived: Arc<Vec<AtomicUsize>> = Arc::new((0..rounds).map(|_| AtomicUsize::new(0)).collect());
+    let mut handles = Vec::new();
+    for (ti, ops) in threads.into_iter().enumerate() {
+        let (reg, sinks, ids, clock, start, arrived) = (reg.clone(), sinks.clone(), ids.clone(), Arc::clone(&clock), Arc::clone(&start), Arc::clone(&arrived));
+        handles.push(std::thread::spawn(move || -> Result<Vec<String>, ()> {
+            let mut res = Vec::new();
+            start.wait();
+            for j in 0..rounds {
+                if sync || j == 0 {
+                    arrived[j].fetch_add(1, Ordering::SeqCst);
+                    let t0 = Instant::now();
+                    while arrived[j].load(Ordering::SeqCst) < n {
+                        std::hint::spin_loop();
+                        if t0.elapsed() > Duration::from_secs(5) { return Err(()); }
+                    }
+                }
+                if j >= ops.len() { continue; }
+                let s = clock.fetch_add(1, Ordering::SeqCst);
+                let (o, b) = conc_op(&reg, &sinks, &ids, &ops[j], &format!("t{ti}/{j}"));
+                let e = clock.fetch_add(1, Ordering::SeqCst);
+                let o = match b { Some(b) => finish_broadcast(&sinks, &ids, b), None => o };
+                res.push(format!("{:x}.{:x}.{}", s, e, o));
+            }
+            Ok(res)
+        }));
+    }
+    let mut per = Vec::new();
+    for hd in handles {
+        match hd.join() {
+            Ok(Ok(r)) => per.push(if r.is_empty() { "-".to_string() } else { r.join(";") }),
+            Ok(Err(())) => return "crash=hang".into(),
+            Err(_) => return "crash=panic".into(),
+        }
+    }
+    format!("init={} res={} final={}", init, per.join("!"), observe_state(&reg, &ids, &keys, "u"))
+}
+
 fn run_case(line: &str) -> String {
     let f = fields(line);
+    if f.get("k").map(|k| k == "conc").unwrap_or(false) {
+        return guard(move || run_conc(&f)).unwrap_or_else(|_| "crash=panic".into());
+    }
     let ids: Vec<u64> = f["ids"].split('.').map(p).collect();
     let keys: Vec<u64> = f["keys"].split('.').map(p).collect();
     let ops: Vec<String> = if f["ops"] == "-" { vec![] } else { f["ops"].split(';').map(|s| s.to_string()).collect() };
@@ -167,6 +284,59 @@ fn gen_cases(seed: u64, thorough: bool) -> Vec<String> {
         }
         let ids: Vec<u64> = (0..ni).collect(); let keys: Vec<u64> = (0..nk).collect();
         cases.push(format!("ids={} keys={} ops={}", ids.iter().map(h_).collect::<Vec<_>>().join("."), keys.iter().map(h_).collect::<Vec<_>>().join("."), ops.join(";")));
+    }
+
+    // concurrent histories: 2-4 threads x 1-4 operations (mutators and queries) on one shared
+    // registry, few ids and keys so that threads contend: alias/remove of the same peer from
+    // different threads, re-pointing a key while its owner is removed, broadcast racing remove
+    let nconc = if thorough { 2500 } else { 250 };
+    // directed duels, operations released round by round: one thread keeps aliasing the hot peer
+    // while another removes and re-inserts it, a third re-points the same keys to another peer,
+    // a fourth queries; in half of them the aliasing thread's key conversion is slow
+    for ci in 0..2 * nconc {
+        let nk = rng.range(1, 3);
+        let l = if ci % 2 == 0 { "L" } else { "S" };
+        let pre = match rng.below(3) { 0 => "I:0;I:1".to_string(), 1 => format!("I:0;I:1;L:0:{:x}", rng.below(nk)), _ => format!("I:0;I:1;L:1:{:x}", rng.below(nk)) };
+        let t1: Vec<String> = (0..4).map(|_| format!("{l}:0:{:x}", rng.below(nk))).collect();
+        let first_remove = rng.chance(2, 3);
+        let t2: Vec<String> = (0..4).map(|j| if (j % 2 == 0) == first_remove { "X:0".to_string() } else { "I:0".to_string() }).collect();
+        let mut ths = vec![t1.join(";"), t2.join(";")];
+        if rng.chance(1, 2) { ths.push((0..rng.range(1, 4)).map(|_| match rng.below(3) { 0 => format!("L:1:{:x}", rng.below(nk)), 1 => "X:1".to_string(), _ => "B".to_string() }).collect::<Vec<_>>().join(";")); }
+        if rng.chance(1, 2) { ths.push((0..rng.range(1, 4)).map(|_| match rng.below(5) { 0 => format!("Y:{:x}", rng.below(nk)), 1 => "A:0".to_string(), 2 => "F:0".to_string(), 3 => "G:0".to_string(), _ => "N".to_string() }).collect::<Vec<_>>().join(";")); }
+        let keys: Vec<u64> = (0..nk).collect();
+        cases.push(format!("k=conc ids=0.1 keys={} sync=1 pre={} th={}", keys.iter().map(h_).collect::<Vec<_>>().join("."), pre, ths.join("!")));
+    }
+    for ci in 0..nconc {
+        let ni = rng.range(1, 3); let nk = rng.range(1, 3);
+        let mut pre: Vec<String> = Vec::new();
+        for i in 0..ni { if rng.chance(4, 5) { pre.push(format!("I:{i:x}")); } }
+        for _ in 0..rng.below(4) { pre.push(format!("L:{:x}:{:x}", rng.below(ni), rng.below(nk))); }
+        let nth = rng.range(2, 4);
+        let hot_id = rng.below(ni); let hot_key = rng.below(nk);
+        let mut ths = Vec::new();
+        for _ in 0..nth {
+            let nops = rng.range(1, 4);
+            let ops: Vec<String> = (0..nops).map(|_| {
+                let id = if rng.chance(2, 3) { hot_id } else { rng.below(ni) };
+                let k = if rng.chance(2, 3) { hot_key } else { rng.below(nk) };
+                match rng.below(20) {
+                    0..=5 => format!("L:{id:x}:{k:x}"),
+                    6..=8 => format!("X:{id:x}"),
+                    9 | 10 => format!("I:{id:x}"),
+                    11 => "B".to_string(),
+                    12 | 13 => format!("Y:{k:x}"),
+                    14 | 15 => format!("A:{id:x}"),
+                    16 => format!("F:{id:x}"),
+                    17 => format!("G:{id:x}"),
+                    18 => "N".to_string(),
+                    _ => format!("L:{:x}:{k:x}", rng.below(ni)),
+                }
+            }).collect();
+            ths.push(ops.join(";"));
+        }
+        let ids: Vec<u64> = (0..ni).collect(); let keys: Vec<u64> = (0..nk).collect();
+        cases.push(format!("k=conc ids={} keys={} sync={} pre={} th={}", ids.iter().map(h_).collect::<Vec<_>>().join("."), keys.iter().map(h_).collect::<Vec<_>>().join("."),
+            ci % 2, if pre.is_empty() { "-".to_string() } else { pre.join(";") }, ths.join("!")));
     }
     cases.into_iter().enumerate().map(|(i, c)| format!("i={i} {c}")).collect()
 }
